@@ -147,3 +147,12 @@ def run_tlc(module, cfg=None, *, workers=16, env=None, timeout=3600,
             tail = "\n".join(out.splitlines()[-40:])
             raise MachineryError(f"TLC failed on {r.spec} with {r.cfg}: {r.error}\n{tail}")
     return r
+
+
+def run_tlc_many(jobs, parallel=4):
+    """jobs: list of (args, kwargs) for run_tlc; runs them concurrently (each
+    TLC is its own JVM) and returns the results in order."""
+    from concurrent.futures import ThreadPoolExecutor
+    with ThreadPoolExecutor(max_workers=parallel) as ex:
+        futs = [ex.submit(run_tlc, *a, **k) for a, k in jobs]
+        return [f.result() for f in futs]
